@@ -31,7 +31,7 @@ def plan(tier):
 
 
 def n_cases(tier):
-    return 6000 if tier == 'thorough' else 1000
+    return 24000 if tier == 'thorough' else 1000
 
 
 def one_case(rng, tier):
